@@ -1,7 +1,7 @@
 """C31 - client-side timestamps strictly increase across all threads.
 
 Spec: spec/Timestamps.tla (threads x calls x nondeterministic clock; Acquire / ReadClock / Compute / Release).
-TLC : exhaustive for N=3, K=2, M=3 (quick: N=2, K=2, M=3 and N=3, K=1, M=3), invariants Mutex, StrictlyIncreasing,
+TLC : exhaustive for N=3, K=2, M=3 (quick: N=3, K=2, M=1 plus the instances whose graphs are replayed), invariants Mutex, StrictlyIncreasing,
       NotBehindClock, LastIsMax; termination.
 Bind: spec -> code: every edge of the state graphs of smaller instances replayed into the real generator under
       DetSched line mode (lock replaced by an instrumented DLock, cassandra.timestamps.time scripted), with the
@@ -45,7 +45,7 @@ def cfg_for(ctx, name, consts, invariants=INV, **kw):
 
 def run(ctx):
     # ---- the specification, exhaustively
-    big = [{"N": 2, "K": 2, "M": 3}, {"N": 3, "K": 1, "M": 3}] if ctx.quick else [{"N": 3, "K": 2, "M": 3}]
+    big = [{"N": 3, "K": 2, "M": 1}] if ctx.quick else [{"N": 3, "K": 2, "M": 3}]
     for consts in big:
         res = tlc.check_model("Timestamps", cfg_for(ctx, "ts_big", consts), ctx.scratch, coverage=True, timeout=1500)
         ctx.add_tlc(res, "exhaustive %s" % consts)
@@ -116,14 +116,16 @@ def run(ctx):
     ctx.note("behaviours_replayed", replayed)
     ctx.note("blocked_checks", blocked_total)
     ctx.note("exhaustive", all_covered)
-    if blocked_total == 0:
-        raise tlc.MachineryError("no blocked-where-disabled check was ever made")
-    # binding self-test (replay): a corrupted expectation must be noticed
-    consts, states = first_walk
-    k = next(i for i, s in enumerate(states) if s["act"]["name"] == "Compute")
-    d, _ = rt.replay(consts, states, corrupt=(k, "last", states[k]["last"] + 1))
-    if not d or d["step"] != k:
-        raise tlc.MachineryError("binding self-test failed: corrupted expectation not detected by the replayer")
+    if diverged == 0:
+        # (meaningful only when the unmodified behaviours replay cleanly; a misbehaving driver is reported above)
+        if blocked_total == 0:
+            raise tlc.MachineryError("no blocked-where-disabled check was ever made")
+        # binding self-test (replay): a corrupted expectation must be noticed
+        consts, states = first_walk
+        k = next(i for i, s in enumerate(states) if s["act"]["name"] == "Compute")
+        d, _ = rt.replay(consts, states, corrupt=(k, "last", states[k]["last"] + 1))
+        if not d or d["step"] != k:
+            raise tlc.MachineryError("binding self-test failed: corrupted expectation not detected by the replayer")
 
     # ---- code -> spec: random line-level schedules
     tconsts = {"N": 3, "K": 2, "M": 3} if ctx.quick else {"N": 3, "K": 3, "M": 5}
